@@ -95,12 +95,26 @@ func (m *Message) Encode() []byte {
 	return snappy.Encode(nil, buffer.Bytes())
 }
 
+// decompress decodes a snappy block, refusing blocks which claim to decompress
+// to more than a snappy encoder could ever have packed into that many bytes
+// (a copy element of 3 bytes yields at most 64 bytes). The claimed length is
+// what snappy allocates upfront, and it comes from the remote peer.
+func decompress(buf []byte) ([]byte, error) {
+	if n, err := snappy.DecodedLen(buf); err != nil {
+		return nil, err
+	} else if n > 32*len(buf)+1024 {
+		return nil, snappy.ErrCorrupt
+	}
+
+	return snappy.Decode(nil, buf)
+}
+
 // DecodeMessage decodes the message from the decoder.
 func DecodeMessage(buf []byte) (out Message, err error) {
 
 	// We need to allocate, given that the unmarshal is now no-copy. By using 'nil' as destination
 	// we make sure that the underlying buffer is calculated based on the decoded length.
-	if buf, err = snappy.Decode(nil, buf); err == nil {
+	if buf, err = decompress(buf); err == nil {
 		err = binary.Unmarshal(buf, &out)
 	}
 
@@ -170,7 +184,7 @@ func DecodeFrame(buf []byte) (out Frame, err error) {
 
 	// We need to allocate, given that the unmarshal is now no-copy. By using 'nil' as destination
 	// we make sure that the underlying buffer is calculated based on the decoded length.
-	if buf, err = snappy.Decode(nil, buf); err == nil {
+	if buf, err = decompress(buf); err == nil {
 		err = binary.Unmarshal(buf, &out)
 	}
 	return
